@@ -572,6 +572,80 @@ def drive_symbol(cm, np, rng, n_events, out, rep):
     f.close()
 
 
+def drive_diff(cm, np, rng, n_events, out, rep):
+    """Messages with the model classes the specification does not predict (QuantizedGaussian/Laplace/Cauchy, Binomial, Bernoulli,
+    Categorical perfect / fast / lazy on arbitrary float64 / float32 tables), encoded through the Python API in the concrete-
+    model and in the model-family call forms, decoded again through Python, and recorded for `vh pydiff`, which encodes the same
+    messages through the Rust API: both front ends must emit the same words."""
+    M = cm.stream.model
+    f = open(out + ".ndjson", "w")
+
+    def seg():
+        kind = rng.choice(["gaussian", "gaussian", "laplace", "cauchy", "binomial", "bernoulli", "categorical", "categorical"])
+        n = rng.randint(1, 6)
+        fam = rng.random() < 0.5           # model family with per-symbol parameters
+        k = n if fam else 1
+        if kind in ("gaussian", "laplace", "cauchy"):
+            lo = rng.randint(-60, 0); hi = lo + rng.randint(1, 120)
+            a = [rng.uniform(lo - 20, hi + 20) for _ in range(k)]
+            b = [10 ** rng.uniform(-3, 3) for _ in range(k)]
+            return {"kind": kind, "min": lo, "max": hi, "a": a, "b": b, "syms": [rng.randint(lo, hi) for _ in range(n)], "fam": fam}
+        if kind == "binomial":
+            nn = rng.randint(1, 40)
+            return {"kind": kind, "a": [nn] * k, "b": [rng.choice([rng.random(), 1e-9, 1 - 1e-9, 0.5]) for _ in range(k)], "syms": [rng.randint(0, nn) for _ in range(n)], "fam": fam}
+        if kind == "bernoulli":
+            return {"kind": kind, "a": [rng.choice([rng.random(), 1e-12, 0.5, 1 - 1e-7]) for _ in range(k)], "perfect": rng.random() < 0.5, "syms": [rng.randint(0, 1) for _ in range(n)], "fam": fam}
+        m = rng.randint(2, 9)
+        rows = []
+        for _ in range(k):
+            w = [rng.choice([rng.random(), rng.random() ** 8, 0.0, 1e-30, 10 ** rng.uniform(-12, 3)]) for _ in range(m)]
+            if sum(w) <= 0: w[0] = 1.0
+            t = sum(w); rows.append([x / t for x in w])
+        perfect = rng.random() < 0.4
+        lazy = (not perfect) and (not fam) and rng.random() < 0.4
+        f32 = rng.random() < 0.3
+        if f32: rows = [[float(np.float32(x)) for x in r] for r in rows]
+        return {"kind": kind, "probs": rows, "perfect": perfect, "lazy": lazy, "f32": f32, "syms": [rng.randrange(m) for _ in range(n)], "fam": fam}
+
+    def model_and_params(s):
+        k = s["kind"]; fam = s["fam"]
+        if k in ("gaussian", "laplace", "cauchy"):
+            cls = {"gaussian": M.QuantizedGaussian, "laplace": M.QuantizedLaplace, "cauchy": M.QuantizedCauchy}[k]
+            if fam: return cls(s["min"], s["max"]), (layout(np, rng, s["a"], np.float64), layout(np, rng, s["b"], np.float64))
+            return cls(s["min"], s["max"], s["a"][0], s["b"][0]), ()
+        if k == "binomial":
+            if fam: return M.Binomial(), (layout(np, rng, s["a"], np.int32), layout(np, rng, s["b"], np.float64))
+            return M.Binomial(int(s["a"][0]), s["b"][0]), ()
+        if k == "bernoulli":
+            if fam: return M.Bernoulli(perfect=s["perfect"]), (layout(np, rng, s["a"], np.float64),)
+            return M.Bernoulli(s["a"][0], perfect=s["perfect"]), ()
+        dt = np.float32 if s["f32"] else np.float64
+        if fam: return M.Categorical(perfect=s["perfect"]), (np.array(s["probs"], dtype=dt),)
+        return M.Categorical(np.array(s["probs"][0], dtype=dt), perfect=s["perfect"], lazy=s["lazy"]), ()
+
+    while rep.events < n_events:
+        coder = rng.choice(["ans", "range"])
+        segs = [seg() for _ in range(rng.randint(0, 5))]
+        enc = cm.stream.stack.AnsCoder() if coder == "ans" else cm.stream.queue.RangeEncoder()
+        for s in segs:
+            model, params = model_and_params(s)
+            syms = layout(np, rng, s["syms"], np.int32)
+            if len(s["syms"]) == 1 and not s["fam"] and rng.random() < 0.5:
+                (enc.encode_reverse if coder == "ans" else enc.encode)(int(s["syms"][0]), model)
+            else:
+                (enc.encode_reverse if coder == "ans" else enc.encode)(syms, model, *params)
+            rep.cls("diff_%s%s" % (s["kind"], "_family" if s["fam"] else ""))
+        words = [int(x) for x in enc.get_compressed()]
+        # decode through Python as well (stack: last segment first)
+        dec = cm.stream.stack.AnsCoder(np.array(words, dtype=np.uint32)) if coder == "ans" else cm.stream.queue.RangeDecoder(np.array(words, dtype=np.uint32))
+        for s in (reversed(segs) if coder == "ans" else segs):
+            model, params = model_and_params(s)
+            got = [int(x) for x in (dec.decode(model, *params) if s["fam"] else dec.decode(model, len(s["syms"])))]
+            if got != s["syms"]: rep.bad("python round trip (%s, %s%s): decoded %r, encoded %r" % (coder, s["kind"], " family" if s["fam"] else "", got, s["syms"]), s)
+        f.write(json.dumps({"coder": coder, "segs": segs, "words": words}) + "\n"); rep.events += 1
+    f.close()
+
+
 def family_ok(frames):
     """frames (top first) can be decoded by ONE family call: same kind, and the kind's shared shape parameters agree"""
     k0 = frames[0][0]
@@ -647,7 +721,7 @@ def main():
     rng = random.Random(a.seed * 7919 + hash(a.coder) % 1000 if False else a.seed * 7919 + sum(map(ord, a.coder)))
     rep = Report()
     try:
-        {"ans": drive_ans, "range": drive_range, "chain": drive_chain, "symbol": drive_symbol}[a.coder](cm, np, rng, a.n, a.out, rep)
+        {"ans": drive_ans, "range": drive_range, "chain": drive_chain, "symbol": drive_symbol, "diff": drive_diff}[a.coder](cm, np, rng, a.n, a.out, rep)
     except BaseException as e:      # a panic in the extension module surfaces as pyo3_runtime.PanicException (a BaseException)
         rep.bad("exception escaped from a Python API call that the driver expects to succeed: %s: %s\n%s" % (type(e).__name__, e, traceback.format_exc()[-1500:]))
     json.dump({"events": rep.events, "classes": rep.classes, "mismatches": rep.mismatches}, open(a.out + ".report.json", "w"))
